@@ -132,3 +132,20 @@ impl Vm {
     ));
   }
 }
+
+impl Vm {
+  /// Run a collection now with the vm as the root set
+  pub fn verif_collect(&mut self) {
+    self.gc.borrow_mut().collect_garbage(self);
+  }
+
+  /// Bytes the allocator believes it holds
+  pub fn verif_allocated(&self) -> usize {
+    self.gc.borrow().allocated()
+  }
+
+  /// Temporary roots currently registered
+  pub fn verif_temp_roots(&self) -> usize {
+    self.gc.borrow().temp_roots()
+  }
+}
